@@ -1,11 +1,14 @@
 (* C12 - The KSR/SKR reader agrees with a standard XML parser, in any sibling order.
    Proved here: order independence of the bundle ordering and of everything the validation theorems
    quantify up to permutation, and independence of the repetition count in the element store.
-   The agreement with a standard parser on plain-form documents is established by correspondence
-   (Coq reader = kskm reader = ElementTree on generated documents); see DESIGN.md. *)
+   Agreement with a standard parser: reader_extracts_tree - for EVERY document in the plain form (any tree of elements with
+   word names, double-quoted non-empty attributes on the start tag's line, text without '<', any whitespace between elements,
+   self-closing or empty-pair form, any repetition count; no element nested in one of the same name; depth within the reader's
+   limit) the reader model returns exactly the tree's data in its documented shape, and anything before the KSR element is
+   ignored. That the real documents are such trees and that the reader model is the real reader is the correspondence. *)
 From Coq Require Import String Sorting.Permutation.
 From KV Require Import Base.Prelude Base.Exn Base.Bytes Model.Data Model.KsrPolicy Model.Xml Proofs.LoadProofs Proofs.PopProofs
-  Spec.KeyRules.
+  Spec.KeyRules Model.XmlTree Proofs.XmlTreeProofs.
 
 Theorem C12_bundle_order_independent : forall l l',
   distinct_keys l -> Permutation l l' -> sort_bundles l = sort_bundles l'.
@@ -23,3 +26,30 @@ Theorem C12_key_signature_order_independent : forall verify b b',
   (pop_bundle verify b = OK tt <-> pop_bundle verify b' = OK tt).
 Proof. exact pop_order_independent. Qed.
 Print Assumptions C12_key_signature_order_independent.
+
+(* the reader on the plain form: what it returns is the tree (val_of t = the data a standards-conforming parser extracts, in the
+   reader's own documented shape: text | dict of children | {attrs, value} | list for repeated names) *)
+Theorem C12_reader_extracts_tree : forall uni_word t, wf t = true -> (height t <= 5)%nat ->
+  parse uni_word (ser t) = Done [(tname t, val_of t)].
+Proof. exact reader_extracts_tree. Qed.
+Print Assumptions C12_reader_extracts_tree.
+
+Theorem C12_reader_ignores_prolog : forall uni_word P t,
+  (forall rest pos, index_aux KSR_OPEN (P ++ rest) pos = index_aux KSR_OPEN rest (pos + length P)%nat) ->
+  (exists n', tname t = [75; 83; 82] ++ n')%list -> wf t = true -> (height t <= 5)%nat ->
+  parse_ksr uni_word (P ++ ser t) = Done [(tname t, val_of t)].
+Proof. exact reader_ignores_prolog. Qed.
+Print Assumptions C12_reader_ignores_prolog.
+
+(* a prolog without '<' (or none) satisfies the premise *)
+Theorem C12_prolog_without_lt : forall P, no_lt P = true ->
+  forall rest pos, index_aux KSR_OPEN (P ++ rest) pos = index_aux KSR_OPEN rest (pos + length P)%nat.
+Proof. intros P H rest pos. apply (index_skip_nolt (fun _ => false) [75; 83; 82] P H). Qed.
+Print Assumptions C12_prolog_without_lt.
+
+(* the premises are satisfiable: a small document with attributes, repeated names, an empty pair and a self-closing element *)
+Example C12_plain_form_example :
+  let t := Node [75;83;82] [([32],[105;100],[120]); ([32;32],[100],[46])] [10;32]
+             [Node [82] [] [10] [Leaf [65] [] [32] [49;50] [10] [10]; Leaf [65] [([32],[107],[118])] [] [] [] [32]; Empty [66] [([9],[115],[50])] [10]] [10]] [10] in
+  wf t = true /\ (height t <= 5)%nat.
+Proof. split; [reflexivity|cbn; lia]. Qed.
